@@ -4,6 +4,7 @@ package main
 // body, check ensures, collect obligations; then discharge with the solvers.
 
 import (
+	"runtime/debug"
 	"os"
 	"fmt"
 	"go/types"
@@ -72,6 +73,9 @@ func (eng *Engine) verifyFunc(sp *FuncSpec) (res *FuncResult) {
 			}
 			// an internal error of the generator on this function: the function is undecided, the check goes on
 			res.Err = fmt.Sprintf("internal error: %v", r)
+			if os.Getenv("SHVC_DEBUG") != "" {
+				debug.PrintStack()
+			}
 		}
 	}()
 	st := &State{reach: c.True(), cells: map[*Cell]*Term{}, heap: map[string]*Term{}}
@@ -195,6 +199,7 @@ func (eng *Engine) verifyFunc(sp *FuncSpec) (res *FuncResult) {
 		e.assumed["modifies clause assumed, not checked against the body (trust frame): "+sp.Name] = true
 	}
 	out, results := e.run(fr, args, st)
+	fr.cur = nil // postconditions sit after every path
 	e.obls = append(e.obls, &Obligation{Name: "cover:exit", Kind: "cover", Reach: out.reach, Cond: c.True(), Cover: true})
 	fr.entry = fr.entry // entry state for old()
 	for _, cl := range sp.Ensures {
